@@ -5,6 +5,7 @@ CONSTANTS
   GuardCombine = TRUE
   GuardControl = FALSE
   SafeDecode = TRUE
+  GuardEndpoint = TRUE
   NoSigpipe = TRUE
   MaxHist = 4
 INVARIANTS C35_NoThrow
